@@ -246,6 +246,16 @@ def check_tp(case):
             _cmp("pointwise_eval", f.pointwise_eval(xyz), refv, probs, key="tp:pointwise_eval")
             refj = refJ.reshape(-1, ntot, d)[perm]
             _cmp("pointwise_jacobian", f.pointwise_jacobian(xyz), refj, probs, key="tp:pointwise_jacobian")
+            # the same points as coordinate arrays with two axes, in every memory layout (the result must not
+            # depend on how the caller's arrays are laid out in memory)
+            mesh = [G[d - 1 - c] for c in range(d)]
+            for lname, lay in (("C-ordered", np.ascontiguousarray), ("Fortran-ordered", np.asfortranarray),
+                               ("transposed view", lambda a: np.ascontiguousarray(a.T).T)):
+                xyz2 = [lay(g) for g in mesh]
+                _cmp("pointwise_eval(2-axis points, %s)" % lname, f.pointwise_eval(xyz2), tp([0] * d), probs,
+                     key="tp:pointwise_eval:layout")
+                _cmp("pointwise_jacobian(2-axis points, %s)" % lname, f.pointwise_jacobian(xyz2), refJ, probs,
+                     key="tp:pointwise_jacobian:layout")
     except Exception as e:
         probs.append(("tp:exception:%s" % type(e).__name__, "tensor-product evaluator raised %r" % (e,)))
     return _dedupe(probs)
